@@ -24,6 +24,14 @@ pub struct RedirCase {
     pub rules: Vec<String>,
     pub resources: Vec<ResSpec>,
     pub reqs: Vec<ReqSpec>,
+    /// the first `initial` resources are loaded with use_resources(); the others are added one at
+    /// a time with add_resource(), re-checking every request after each
+    #[serde(default = "all_initial")]
+    pub initial: usize,
+}
+
+fn all_initial() -> usize {
+    usize::MAX
 }
 
 impl Case for RedirCase {
@@ -50,7 +58,7 @@ impl Case for RedirCase {
     }
 }
 
-const NAMES: &[&str] = &["noop.js", "noopjs", "1x1.gif", "blank.css", "empty", "tpl.js", "fn.js", "trusted.js", "nooptext", "x:y.js"];
+const NAMES: &[&str] = &["noop.js", "noopjs", "1x1.gif", "blank.css", "empty", "tpl.js", "fn.js", "trusted.js", "nooptext", "x:y.js", "noop", "noop-1s.mp4", "noop.txt", "noop/x"];
 const KINDS: &[&str] = &[
     "application/javascript", "image/gif", "text/css", "text/html", "application/json", "audio/mp3", "video/mp4", "image/png", "text/plain",
     "text/xml", "fn/javascript", "application/octet-stream", "template",
@@ -73,8 +81,21 @@ fn to_resource(i: usize, r: &ResSpec) -> Resource {
 }
 
 pub fn check_case(c: &RedirCase, obs: &mut Obs) -> Result<(), String> {
-    let res: Vec<Resource> = c.resources.iter().enumerate().map(|(i, r)| to_resource(i, r)).collect();
-    let engine = build_engine(&c.rules, false, false, &res);
+    let all: Vec<Resource> = c.resources.iter().enumerate().map(|(i, r)| to_resource(i, r)).collect();
+    let k0 = c.initial.min(all.len());
+    let mut engine = build_engine(&c.rules, false, false, &all[..k0]);
+    check_with(c, obs, &engine, &all[..k0])?;
+    for k in k0..all.len() {
+        let _ = engine.add_resource(all[k].clone());
+        obs.label("add_resource-then-recheck");
+        check_with(c, obs, &engine, &all[..=k])?;
+    }
+    Ok(())
+}
+
+fn check_with(c: &RedirCase, obs: &mut Obs, engine: &adblock::Engine, res: &[Resource]) -> Result<(), String> {
+    let res: Vec<Resource> = res.to_vec();
+    let engine = engine;
     let parsed = parse_network(&c.rules);
     let active = active_rules(&parsed);
     let tags = HashSet::new();
@@ -172,11 +193,12 @@ pub fn decode(t: &mut Tape) -> RedirCase {
         let u = format!("https://{}{}", t.choose(&hosts), t.choose(&paths));
         reqs.push(ReqSpec { url: u, source: t.choose(&["https://site.org/", "https://x.com/", ""]).to_string(), rtype: t.choose(&["script", "image", "stylesheet", "xhr", "document"]).to_string() });
     }
-    RedirCase { rules, resources, reqs }
+    let initial = if t.chance(1, 2) { usize::MAX } else { t.pick(resources.len() + 1) };
+    RedirCase { rules, resources, reqs, initial }
 }
 
 pub fn check(ctx: &mut Ctx) {
-    ctx.rule = "1-8 redirect / redirect-rule / @@..$redirect[-rule] rules on 11 overlapping patterns with priority suffixes (none, 0, equal, negative, +n, overflowing, :abc, trailing ':', double ':'), optional extra options, plus plain/exception/important rules; resource stores of 0-6 resources (names and aliases from a pool of 10 so clashes happen, all 12 mime types + template, permission 0 / non-zero, invalid base64); 1-5 requests. Oracle: candidates = matching non-exception redirect rules (per-rule matcher) whose resource name is not named by a matching redirect exception; winners = maximal priority; acceptable = data URL of each winner under an independent resource-store model (first add wins, validation, redirectable kind, permission 0). Non-trivial = >= 2 candidates with different priorities, or an exception present beside >= 2 candidates.".into();
+    ctx.rule = "1-8 redirect / redirect-rule / @@..$redirect[-rule] rules on 11 overlapping patterns with priority suffixes (none, 0, equal, negative, +n, overflowing, :abc, trailing ':', double ':'), optional extra options, plus plain/exception/important rules; resource stores of 0-6 resources (names and aliases from a pool of 10 so clashes happen, all 12 mime types + template, permission 0 / non-zero, invalid base64); 1-5 requests; in half of the cases only a prefix of the store is loaded at first and the remaining resources are added one at a time with add_resource(), all requests being re-checked after each. Oracle: candidates = matching non-exception redirect rules (per-rule matcher) whose resource name is not named by a matching redirect exception; winners = maximal priority; acceptable = data URL of each winner under an independent resource-store model (first add wins, validation, redirectable kind, permission 0). Non-trivial = >= 2 candidates with different priorities, or an exception present beside >= 2 candidates.".into();
     ctx.assumptions = vec!["which rules match is decided by NetworkFilter::matches (C02/C03 check that); priority ties leave the choice free".into()];
     let n = ctx.tier.pick(600_000, 5_000_000);
     drive(ctx, "redirect", n, 300, &decode, &check_case);
